@@ -190,6 +190,137 @@ Proof.
     + apply log_read_misc.
 Qed.
 
+(* ---------------------------------------------------------------- a tracked read: track ... log *)
+Lemma Inv_track stk t c o j s :
+  Inv stk t s -> ctx_ok stk c -> obs_of c = Some o -> TopOK c s -> j < t ->
+  let s1 := track c j s in
+  Inv stk j s1 /\
+  srcs (getn s1 o) = tracked_of (rlog (getn s1 o)) ++ [j] /\
+  PullRel (S j) stk (Some o) s s1 /\
+  (forall k, k <> o -> srcs (getn s1 k) = srcs (getn s k)) /\
+  (forall k, rlog (getn s1 k) = rlog (getn s k)) /\
+  subs (getn s1 j) = subscribe (subs (getn s j)) o.
+Proof.
+  intros I C Ho T Hjt. cbv zeta.
+  destruct (ctx_ok_obs stk c o C Ho) as [Hw Hin].
+  destruct I as [I Iv].
+  assert (Hto : t <= o) by (eapply inv_run_ge; eauto).
+  assert (Hlt : j < o) by lia.
+  assert (Hor : o < nlen s).
+  { rewrite (wf_len p s (inv_wf _ _ _ _ I)). eapply inv_run_range; eauto. }
+  set (s1 := track c j s).
+  assert (Hrest := fun k => track_rest c o j s Ho Hlt Hor k). cbv zeta in Hrest. fold s1 in Hrest.
+  assert (Hsv : forall k, sval (getn s1 k) = sval (getn s k)) by (intros k; apply Hrest).
+  assert (Hst : forall k, st (getn s1 k) = st (getn s k)) by (intros k; apply Hrest).
+  assert (Hca : forall k, cache (getn s1 k) = cache (getn s k)) by (intros k; apply Hrest).
+  assert (Hrl : forall k, rlog (getn s1 k) = rlog (getn s k)) by (intros k; apply Hrest).
+  assert (Hsr := fun k => track_srcs c o j s Ho Hlt Hor k). fold s1 in Hsr.
+  assert (Hsu := fun k => track_subs c o j s Ho Hlt Hor k). fold s1 in Hsu.
+  assert (Hsro : forall k, k <> o -> srcs (getn s1 k) = srcs (getn s k)).
+  { intros k Hk. rewrite Hsr. destruct (Nat.eqb_spec k o); congruence. }
+  assert (Hcur : forall x, cur s1 x = cur s x) by (intros x; apply cur_view; auto).
+  assert (Hno : forall i, ~ In i stk -> i <> o) by (intros i Hi ->; auto).
+  split; [|split; [|split; [|split; [|split]]]]; auto.
+  - split; [split|].
+    + apply WF_track; auto. apply I.
+    + rewrite (proj1 (track_misc c o j s Ho)). apply I.
+    + intros i Hi. apply (L1_ext s s1 i (Hrl i) (Hsro i (Hno i Hi))). apply I; auto.
+    + intros i Hm Hi. apply (MemoOKc_ext p s s1 i (Hst i) (Hca i) (Hrl i)); [|apply I; auto].
+      intros x w _ _ Hc. rewrite Hst; auto.
+    + intros k Hk. apply (Lcur_ext p s s1 k (Hrl k)); [|apply I; auto]. intros x w _; apply Hcur.
+    + intros k Hk. apply (Lclean_ext p s s1 k (Hrl k)); [|apply I; auto].
+      intros x w _ _ Hc. rewrite Hst; auto.
+    + intros k x Hk. rewrite Hrl, Hsr. destruct (Nat.eqb_spec k o) as [->|Hko].
+      * rewrite in_app_iff. intros [Hx|[<-|[]]]; [|right; lia].
+        destruct (inv_run_src _ _ _ _ I o x Hk Hx); auto. right; lia.
+      * intros Hx. destruct (inv_run_src _ _ _ _ I k x Hk Hx); auto. right; lia.
+    + intros k Hk. pose proof (inv_run_ge _ _ _ _ I k Hk). lia.
+    + apply I.
+    + intros k Hk Hm. rewrite Hst. eapply inv_run_nc; eauto.
+    + intros i Hm Hi. apply (MemoOKv_ext p s s1 i (Hst i) (Hca i) (Hrl i)); [|apply Iv; auto].
+      intros x w _; apply Hcur.
+  - rewrite Hrl, Hsr, Nat.eqb_refl. unfold TopOK in T. rewrite Hw in T. unfold L1 in T. rewrite T. reflexivity.
+  - split.
+    + apply (track_nlen c o j s Ho).
+    + auto.
+    + intros i Hm Hi Hc. rewrite Hst, Hca, Hrl, (Hsro i (Hno i Hi)). auto.
+    + intros y Hy He. split; auto. apply Hsro. intros ->; congruence.
+    + intros y Hy. rewrite Hca, Hst, Hsu. split; auto. split; auto using st_le_refl.
+      destruct (Nat.eqb_spec y j); auto. lia.
+    + intros i. specialize (Hrest i). intuition.
+    + apply (track_misc c o j s Ho).
+  - rewrite Hsu, Nat.eqb_refl. reflexivity.
+Qed.
+
+(* the log entry of a tracked read completes the pending source *)
+Lemma Inv_log_tracked stk t c o j v s :
+  Inv stk j s -> fst c = Some o -> In o stk ->
+  (forall k x, In k stk -> k <> o -> In x (srcs (getn s k)) ->
+               In x (tracked_of (rlog (getn s k))) \/ t <= x) ->
+  (forall k, In k stk -> t <= k) ->
+  srcs (getn s o) = tracked_of (rlog (getn s o)) ++ [j] ->
+  cur s j = v -> (memob j = true -> st (getn s j) = Clean) ->
+  let s' := log_read c j v true true s in
+  Inv stk t s' /\ TopOK c s' /\ PullRel (S j) stk (Some o) s s'.
+Proof.
+  intros [I Iv] Hw Hin Hsrc Hge Hpend Hv Hcl. cbv zeta.
+  set (s' := log_read c j v true true s).
+  assert (Hor : o < nlen s).
+  { rewrite (wf_len p s (inv_wf _ _ _ _ I)). eapply inv_run_range; eauto. }
+  assert (Hf : forall k, sval (getn s' k) = sval (getn s k) /\ st (getn s' k) = st (getn s k) /\
+                         cache (getn s' k) = cache (getn s k) /\ srcs (getn s' k) = srcs (getn s k) /\
+                         subs (getn s' k) = subs (getn s k)).
+  { intros k. destruct (log_read_other_fields c j v true true s k) as (?&?&?&?&?&_). intuition. }
+  assert (Hro : rlog (getn s' o) = rlog (getn s o) ++ [(j, v, true)]).
+  { unfold s'. rewrite log_read_getn, Hw. cbn [andb]. rewrite Nat.eqb_refl.
+    apply Nat.ltb_lt in Hor. rewrite Hor. reflexivity. }
+  assert (Hrk : forall k, k <> o -> rlog (getn s' k) = rlog (getn s k)).
+  { intros k Hk. unfold s'. rewrite log_read_getn, Hw. cbn [andb].
+    destruct (Nat.eqb_spec o k); [congruence|]. reflexivity. }
+  assert (Hcur : forall x, cur s' x = cur s x) by (intros x; apply cur_view; apply Hf).
+  assert (Hno : forall i, ~ In i stk -> i <> o) by (intros i Hi ->; auto).
+  assert (Hsto : forall k, st (getn s' k) = st (getn s k)) by (intros k; apply Hf).
+  assert (Hca : forall k, cache (getn s' k) = cache (getn s k)) by (intros k; apply Hf).
+  assert (Hsr : forall k, srcs (getn s' k) = srcs (getn s k)) by (intros k; apply Hf).
+  assert (HL1o : srcs (getn s' o) = tracked_of (rlog (getn s' o))).
+  { rewrite Hsr, Hro, tracked_of_app, Hpend. reflexivity. }
+  split; [|split].
+  - split; [split|].
+    + apply WF_log_read. apply I.
+    + unfold s'. rewrite (proj1 (proj2 (log_read_misc c j v true true s))). apply I.
+    + intros i Hi. apply (L1_ext s s' i (Hrk i (Hno i Hi)) (Hsr i)). apply I; auto.
+    + intros i Hm Hi. apply (MemoOKc_ext p s s' i (Hsto i) (Hca i) (Hrk i (Hno i Hi))); [|apply I; auto].
+      intros x w _ _ Hc. rewrite Hsto; auto.
+    + intros k Hk x w Hx. rewrite Hcur. destruct (Nat.eq_dec k o) as [->|Hko].
+      * rewrite Hro, in_app_iff in Hx. destruct Hx as [Hx|[Hx|[]]].
+        -- eapply inv_run_cur; eauto.
+        -- inversion Hx; subst. reflexivity.
+      * rewrite Hrk in Hx by auto. eapply inv_run_cur; eauto.
+    + intros k Hk x w Hx Hm. rewrite Hsto. destruct (Nat.eq_dec k o) as [->|Hko].
+      * rewrite Hro, in_app_iff in Hx. destruct Hx as [Hx|[Hx|[]]].
+        -- eapply inv_run_clean; eauto.
+        -- inversion Hx; subst. auto.
+      * rewrite Hrk in Hx by auto. eapply inv_run_clean; eauto.
+    + intros k x Hk Hx. destruct (Nat.eq_dec k o) as [->|Hko].
+      * left. rewrite <- HL1o. exact Hx.
+      * rewrite Hsr in Hx. rewrite Hrk by auto. apply Hsrc; auto.
+    + exact Hge.
+    + apply I.
+    + intros k Hk Hm. rewrite Hsto. eapply inv_run_nc; eauto.
+    + intros i Hm Hi. apply (MemoOKv_ext p s s' i (Hsto i) (Hca i) (Hrk i (Hno i Hi))); [|apply Iv; auto].
+      intros x w _; apply Hcur.
+  - unfold TopOK. rewrite Hw. exact HL1o.
+  - split.
+    + apply (proj1 (log_read_misc c j v true true s)).
+    + intros i. apply Hf.
+    + intros i Hm Hi Hc. rewrite Hsto, Hca, Hsr, (Hrk i (Hno i Hi)). auto.
+    + intros y Hy He. split; auto. apply Hrk. intros ->; congruence.
+    + intros y Hy. destruct (Hf y) as (_&->&->&_&->). split; auto. split; auto using st_le_refl.
+    + intros i. destruct (log_read_other_fields c j v true true s i) as (_&_&_&_&_&_&_&_&_&?&?&?&?&?).
+      intuition.
+    + apply (log_read_misc c j v true true s).
+Qed.
+
 (* ---------------------------------------------------------------- eval, for a pure body *)
 Lemma eval_spec i R : RSpec i R ->
   forall e c s stk t s' v,
